@@ -61,7 +61,7 @@ fn run_break_formula(e: &Sexp) -> R<Sexp> {
     Ok(conv::theory(&brk::break_equivalences_formula(conv::parse_formula(e)?)))
 }
 fn gen_break_theory(rng: &mut Rng) -> Sexp {
-    let n = rng.below(4);
+    let n = g::count(rng, 3);
     conv::theory(&fol::Theory { formulas: (0..n).map(|_| breakable_formula(rng)).collect() })
 }
 fn run_break_theory(e: &Sexp) -> R<Sexp> {
@@ -97,11 +97,22 @@ fn gen_problem(rng: &mut Rng) -> pb::Problem {
         max_arity: 1,
         ..g::Cfg::tight()
     };
-    let n = rng.below(6);
+    // 4 %: 11-14 formulas, mostly conjectures: sub-problem names `{name}_{i}` and `formula_{i}` names with
+    // two-digit indices (audit 2, B16: every printed index was one digit)
+    let many = rng.chance(4);
+    let n = if many { 11 + rng.below(4) } else { g::count(rng, 5) };
     pb::Problem {
         name: rng.pick(&["problem", "", "forward", "_x"]).to_string(),
         interpretation: pb::Interpretation::Standard,
-        formulas: (0..n).map(|_| gen_pformula(rng, &cfg)).collect(),
+        formulas: (0..n)
+            .map(|_| {
+                let mut f = gen_pformula(rng, &cfg);
+                if many && rng.chance(85) {
+                    f.role = pb::Role::Conjecture;
+                }
+                f
+            })
+            .collect(),
     }
 }
 fn gen_problem_decompose(rng: &mut Rng) -> Sexp {
@@ -274,22 +285,8 @@ fn run_proof_outline(e: &Sexp) -> R<Sexp> {
             let taken = t::parse_preds(taken)?;
             let ph = t::placeholder_map(&t::parse_placeholders(ph)?);
             match outline::ProofOutline::from_specification(spec, taken, &ph) {
-                Ok(w) => Ok(tagged(
-                    "ok",
-                    vec![
-                        t::proof_outline(&w.data),
-                        tagged(
-                            "warnings",
-                            w.warnings
-                                .iter()
-                                .map(|x| match x {
-                                    outline::ProofOutlineWarning::ExcessQuantifiedVariables(_) => s("ExcessQuantifiedVariables"),
-                                })
-                                .collect(),
-                        ),
-                    ],
-                )),
-                Err(err) => Ok(tagged("err", vec![s(t::po_error(&err))])),
+                Ok(w) => Ok(tagged("ok", vec![t::proof_outline(&w.data), t::po_warnings(&w.warnings)])),
+                Err(err) => Ok(t::po_error(&err)),
             }
         }
         _ => Err("proof_outline: (spec taken placeholders) expected".into()),
@@ -299,30 +296,10 @@ fn run_proof_outline(e: &Sexp) -> R<Sexp> {
 // ------------------------------------------------------------------ external equivalence
 
 fn ext_error(e: &ExternalEquivalenceTaskError) -> Sexp {
-    use ExternalEquivalenceTaskError as E;
-    let v = match e {
-        E::UnsupportedFormulaRepresentation => "UnsupportedFormulaRepresentation",
-        E::NonTightProgram(_) => "NonTightProgram",
-        E::ProgramContainsPrivateRecursion(_) => "ProgramContainsPrivateRecursion",
-        E::InputOutputPredicatesOverlap(_) => "InputOutputPredicatesOverlap",
-        E::InputPredicateInRuleHead(_) => "InputPredicateInRuleHead",
-        E::OutputPredicateInUserGuideAssumption(_) => "OutputPredicateInUserGuideAssumption",
-        E::OutputPredicateInSpecificationAssumption(_) => "OutputPredicateInSpecificationAssumption",
-        E::PlaceholdersWithIdenticalNamesDifferentSorts(_) => "PlaceholdersWithIdenticalNamesDifferentSorts",
-        E::AssumptionContainsNonInputSymbols(_) => "AssumptionContainsNonInputSymbols",
-        E::SpecificationContainsUnsupportedRoles(_) => "SpecificationContainsUnsupportedRoles",
-        E::ProofOutlineError(inner) => return tagged("err", vec![s("ProofOutlineError"), s(t::po_error(inner))]),
-    };
-    tagged("err", vec![s(v)])
+    t::ext_error(e)
 }
 fn ext_warning(w: &ExternalEquivalenceTaskWarning) -> Sexp {
-    use ExternalEquivalenceTaskWarning as W;
-    s(match w {
-        W::NonTightProgram(_) => "NonTightProgram",
-        W::InconsistentDirectionAnnotation(_) => "InconsistentDirectionAnnotation",
-        W::InvalidRoleWithinUserGuide(_) => "InvalidRoleWithinUserGuide",
-        W::DefinitionWithWarning(_) => "DefinitionWithWarning",
-    })
+    t::ext_warning(w)
 }
 
 fn var(x: &str) -> asp::Term {
@@ -359,7 +336,10 @@ fn stratified_program(rng: &mut Rng, inputs: &[(&str, usize)], order: &[(&str, u
         }
         avail.push(*h);
     }
-    if rng.chance(30) {
+    // 0-3 constraints: control_translate numbers them `constraint_0`, `constraint_1`, .. per side
+    // (audit 2, B16: k >= 1 was reached by the `_full` op only)
+    let n_constraints = rng.weighted(&[64, 22, 10, 4]);
+    for _ in 0..n_constraints {
         let c = t::PCfg { preds: &avail, head_preds: &avail, vars: &["X", "Y"], syms, arith, max_rules: 1, max_body: 2, choice: false, constraints: true };
         rules.push(asp::Rule { head: asp::Head::Falsity, body: t::p_body(rng, &c) });
     }
@@ -399,9 +379,16 @@ fn plant_program_violation(rng: &mut Rng, p: &mut asp::Program, private: &[(&str
             p.rules.push(asp::Rule { head: asp::Head::Choice(asp::Atom { predicate_symbol: q.into(), terms: args(n) }), body: asp::Body { formulas: vec![] } });
         }
         _ => {
-            // an input predicate heads a rule
-            let (i, n) = *rng.pick(inputs);
-            p.rules.push(basic(i, args(n), vec![]));
+            // an input predicate heads a rule; 35 %: every input predicate does, in reverse order of declaration
+            // (the payload of InputPredicateInRuleHead lists them in the order of the input declarations)
+            if inputs.len() >= 2 && rng.chance(35) {
+                for (i, n) in inputs.iter().rev() {
+                    p.rules.push(basic(i, args(*n), vec![]));
+                }
+            } else {
+                let (i, n) = *rng.pick(inputs);
+                p.rules.push(basic(i, args(n), vec![]));
+            }
         }
     }
 }
@@ -521,8 +508,23 @@ fn gen_external_task(rng: &mut Rng) -> ExternalEquivalenceTask {
     }
     if rng.chance(5) {
         violations += 1;
-        let (p, n) = *rng.pick(inputs);
-        entries.push(fol::UserGuideEntry::OutputPredicate(pr(p, n)));
+        // one or (40 %, when there are two) several input predicates declared output as well, in the order of
+        // the inputs or reversed: the payload of InputOutputPredicatesOverlap is the intersection in the
+        // order of the INPUT declarations
+        if inputs.len() >= 2 && rng.chance(40) {
+            let mut both: Vec<(&str, usize)> = inputs.to_vec();
+            if rng.chance(50) {
+                both.reverse();
+            }
+            for (p, n) in both {
+                if rng.chance(80) {
+                    entries.push(fol::UserGuideEntry::OutputPredicate(pr(p, n)));
+                }
+            }
+        } else {
+            let (p, n) = *rng.pick(inputs);
+            entries.push(fol::UserGuideEntry::OutputPredicate(pr(p, n)));
+        }
     }
     if rng.chance(10) {
         // duplicate declarations are harmless
@@ -537,11 +539,25 @@ fn gen_external_task(rng: &mut Rng) -> ExternalEquivalenceTask {
         entries.push(fol::UserGuideEntry::PlaceholderDeclaration(fol::PlaceholderDeclaration { name: "n".into(), sort: fol::Sort::General }));
         entries.push(fol::UserGuideEntry::PlaceholderDeclaration(fol::PlaceholderDeclaration { name: "n".into(), sort: fol::Sort::Symbol }));
     }
+    // user-guide assumptions over the input predicates; 8 %: over all public predicates; 7 %: over
+    // the inputs and the PRIVATE predicates of the program / the specification (refused:
+    // ensure_assumptions_only_contain_input_symbols is called with an EMPTY set of extra symbols for
+    // user-guide formulas, external_equivalence.rs:478, and with the program's private predicates
+    // for specification formulas, :496 - audit 2, B16 row 1: only such a case tells the two call
+    // sites apart)
+    let mut ug_priv_preds: Vec<(&str, usize)> = in_preds.clone();
+    ug_priv_preds.extend(priv_prog.iter().cloned());
+    if rng.chance(30) {
+        ug_priv_preds.extend(priv_spec.iter().cloned());
+    }
     let n_as = rng.weighted(&[5, 3, 1]);
     for _ in 0..n_as {
         let ps = if rng.chance(8) {
             violations += 1;
             &pub_preds
+        } else if ug_priv_preds.len() > in_preds.len() && rng.chance(8) {
+            violations += 1;
+            &ug_priv_preds
         } else {
             &in_preds
         };
